@@ -41,6 +41,7 @@ type ProjectRunner struct {
 	runProcMutex      sync.Mutex
 	procOpMutex       sync.Mutex // serialises explicit start/restart requests
 	runningProcesses  map[string]*Process
+	shutDownRequested bool // guarded by runProcMutex: the start-up registers nothing any more
 	doneProcMutex     sync.Mutex
 	doneProcesses     map[string]*Process
 	logger            pclog.PcLogger
@@ -100,7 +101,13 @@ func (p *ProjectRunner) Run() error {
 	for _, proc := range runOrder {
 		verifYieldR("runner.loop")
 		newConf := proc
-		p.runProcess(&newConf)
+		if !p.runProcessUnlessShutDown(&newConf, true) {
+			// a project shutdown was requested while the processes were being started:
+			// it could not see the ones that were not registered yet, they must not
+			// be launched behind its back
+			log.Info().Msgf("Project shutdown requested - process %s and the following ones won't be started", proc.ReplicaName)
+			break
+		}
 	}
 	p.waitGroup.Wait()
 	log.Info().Msg("Project completed")
@@ -111,6 +118,12 @@ func (p *ProjectRunner) Run() error {
 }
 
 func (p *ProjectRunner) runProcess(config *types.ProcessConfig) {
+	p.runProcessUnlessShutDown(config, false)
+}
+
+// runProcessUnlessShutDown registers and runs a process. With atStartUp the process is left
+// alone (and false is returned) once a project shutdown has been requested.
+func (p *ProjectRunner) runProcessUnlessShutDown(config *types.ProcessConfig, atStartUp bool) bool {
 	procLogger := p.logger
 	if isStringDefined(config.LogLocation) {
 		procLogger = pclog.NewLogger()
@@ -143,7 +156,9 @@ func (p *ProjectRunner) runProcess(config *types.ProcessConfig) {
 		withExtraArgs(extraArgs),
 	)
 	verifYieldP(process, "runproc.beforeRegister")
-	p.addRunningProcess(process)
+	if !p.addRunningProcessUnlessShutDown(process, atStartUp) {
+		return false
+	}
 	p.waitGroup.Add(1)
 	go func(proc *Process) {
 		defer p.removeRunningProcess(proc)
@@ -163,6 +178,7 @@ func (p *ProjectRunner) runProcess(config *types.ProcessConfig) {
 			p.onProcessEnd(exitCode, proc.procConf)
 		}
 	}(process)
+	return true
 }
 
 func (p *ProjectRunner) waitIfNeeded(process *types.ProcessConfig) error {
@@ -302,9 +318,17 @@ func (p *ProjectRunner) getProcessesStateData(filter filterFn) error {
 }
 
 func (p *ProjectRunner) addRunningProcess(process *Process) {
+	p.addRunningProcessUnlessShutDown(process, false)
+}
+
+func (p *ProjectRunner) addRunningProcessUnlessShutDown(process *Process, atStartUp bool) bool {
 	p.runProcMutex.Lock()
+	defer p.runProcMutex.Unlock()
+	if atStartUp && p.shutDownRequested {
+		return false
+	}
 	p.runningProcesses[process.getName()] = process
-	p.runProcMutex.Unlock()
+	return true
 }
 
 func (p *ProjectRunner) addDoneProcess(process *Process) {
@@ -571,6 +595,7 @@ func (p *ProjectRunner) ShutDownProject() error {
 	verifYieldR("shutdown.entry")
 	p.runProcMutex.Lock()
 	defer p.runProcMutex.Unlock()
+	p.shutDownRequested = true
 
 	shutdownOrder := []*Process{}
 	if p.isOrderedShutDown {
